@@ -364,40 +364,95 @@ func c34(c *engine.Ctx) {
 		info := f.Info()
 		recv := hhRecv(f)
 		g := f.Graph()
-		wr := f.CallsTo("tm2/pkg/os.WriteFileAtomic")
+		wr := hhDeepCalls(f, "tm2/pkg/os.WriteFileAtomic")
 		c.Floor("update-persist WriteFileAtomic", len(wr), 1)
-		for _, w := range wr {
-			c.Check("update-persist", f.Name+" writes fs.filePath", w.Pos(), hhIsChain(info, hhArg(w.Call, 0), recv, "filePath"), "the sign state must be written to its own file path")
-			// data is the marshalled receiver
+		for _, wd := range wr {
+			wd := wd
+			w := wd.Outer
+			c.Check("update-persist", f.Name+" writes fs.filePath", w.Pos(), hhIsChain(info, hhDeepArg(wd, 0), recv, "filePath"), "the sign state must be written to its own file path")
+			// data is the marshalled receiver (marshalled here or in one private helper that hands the bytes back)
 			dataOK := false
-			for _, m := range f.CallsTo("tm2/pkg/amino.MarshalJSONIndent", "tm2/pkg/amino.MarshalJSON") {
-				rv := hhResultVars(f, m)
-				if len(rv) == 2 && rv[0] != nil && engine.ObjOf(info, hhArg(w.Call, 1)) == rv[0] && engine.ObjOf(info, hhArg(m.Call, 0)) == recv {
-					if ok, _ := hhErrGuard(f, m, w); ok {
-						dataOK = true
+			written := engine.ObjOf(info, hhDeepArg(wd, 1))
+			marshals := hhDeepCalls(f, "tm2/pkg/amino.MarshalJSONIndent", "tm2/pkg/amino.MarshalJSON")
+			for _, md := range marshals {
+				md := md
+				if engine.ObjOf(info, hhDeepArg(md, 0)) != recv || written == nil {
+					continue
+				}
+				if ok, _ := hhDeepErrGuard(f, md, w); !ok {
+					continue
+				}
+				inRv := hhResultVars(md.Inner.Fn, md.Inner)
+				if len(inRv) != 2 || inRv[0] == nil {
+					continue
+				}
+				if md.Inner == md.Outer {
+					dataOK = dataOK || inRv[0] == written
+					continue
+				}
+				if len(md.Chain) != 1 {
+					continue
+				}
+				// helper: every success exit returns the marshalled bytes as first result,
+				// and the caller writes the helper's first result
+				h := md.Chain[0]
+				outRv := hhResultVars(f, md.Outer)
+				okRet := len(outRv) >= 1 && outRv[0] == written
+				nOK := 0
+				for _, rb := range h.Graph().ReturnBlocks() {
+					r := rb.Return()
+					if r == nil || len(r.Results) != 2 {
+						okRet = false
+						continue
+					}
+					if isNil(r.Results[1]) {
+						nOK++
+						if engine.ObjOf(h.Info(), r.Results[0]) != inRv[0] {
+							okRet = false
+						}
 					}
 				}
+				dataOK = dataOK || (okRet && nOK >= 1)
 			}
 			c.Check("update-persist", f.Name+" writes the marshalled state", w.Pos(), dataOK, "data must be amino JSON of the receiver, marshal error leaves first")
 			vOK := false
-			for _, v := range f.CallsTo(FS + "validate") {
-				if ok, _ := hhErrGuard(f, v, w); ok {
-					vOK = true
+			for _, vd := range hhDeepCalls(f, FS+"validate") {
+				vd := vd
+				if ok, _ := hhDeepErrGuard(f, vd, w); !ok {
+					continue
+				}
+				// validation also precedes (and gates) the marshalling
+				for _, md := range marshals {
+					if vd.Inner != vd.Outer && md.Inner != md.Outer && vd.Outer == md.Outer && len(vd.Chain) == 1 && len(md.Chain) == 1 {
+						if ok, _ := hhErrGuard(vd.Chain[0], vd.Inner, md.Inner); ok {
+							vOK = true
+						}
+					} else if ok, _ := hhDeepErrGuard(f, vd, md.Outer); ok {
+						vOK = true
+					}
 				}
 			}
 			c.Check("update-persist", f.Name+" validate before write", w.Pos(), vOK, "an invalid sign state must not be persisted")
-			// nil return only after a successful write
+			// success exits: `return nil` only after a successful write, or `return WriteFileAtomic(...)`
 			n := 0
 			for _, rb := range g.ReturnBlocks() {
 				r := rb.Return()
-				if len(r.Results) != 1 || !isNil(r.Results[0]) {
+				if len(r.Results) != 1 {
+					continue
+				}
+				if ast.Unparen(r.Results[0]) == ast.Expr(w.Call) {
+					n++
+					c.Check("update-persist", f.Name+" returns the write's result", r.Pos(), true, "error propagated; nil only when the write succeeded")
+					continue
+				}
+				if !isNil(r.Results[0]) {
 					continue
 				}
 				n++
 				rs := f.SiteOf(r)
 				ok, why := false, "unlocated"
 				if rs != nil {
-					ok, why = hhErrGuard(f, w, rs)
+					ok, why = hhDeepErrGuard(f, wd, rs)
 				}
 				c.Check("update-persist", f.Name+" nil result only after successful write", r.Pos(), ok, why)
 			}
